@@ -99,24 +99,28 @@ fn real_bytes(p: &SigPlan) -> Vec<u8> {
     }
 }
 
-fn sha_run<D: crate::sc_wstream::Key + Sig>(m: usize, ids: &[u64]) -> Vec<u64> {
+fn sha_run<D: crate::sc_wstream::Key + Sig>(m: usize, ids: &[u64], ghosts: bool) -> Vec<u64> {
     let mut sk = ProbMinHash3aSha::<D>::new(m, D::from_id(crate::sc_wstream::PLACEHOLDER));
     let mut mp: IndexMap<D, f64, SeedBH> = IndexMap::with_hasher(SeedBH(3));
     for (k, i) in ids.iter().enumerate() {
+        if ghosts && k % 2 == 0 {
+            // an entry of weight 0 (no member of the weighted set) right before a real key
+            mp.insert(D::from_id(0xffff_0000 + k as u64), 0.0);
+        }
         mp.insert(D::from_id(*i), 1.0 + (k % 7) as f64);
     }
     sk.hash_weigthed_idxmap(&mp);
     sk.get_signature().iter().map(|d| d.to_id()).collect()
 }
 
-fn sha_dispatch(k: ShaKey, m: usize, ids: &[u64]) -> Vec<u64> {
+fn sha_dispatch(k: ShaKey, m: usize, ids: &[u64], ghosts: bool) -> Vec<u64> {
     match k {
-        ShaKey::U64 => sha_run::<u64>(m, ids),
-        ShaKey::U32 => sha_run::<u32>(m, ids),
-        ShaKey::VecU8 => sha_run::<Vec<u8>>(m, ids),
-        ShaKey::Str => sha_run::<String>(m, ids),
-        ShaKey::VecU16 => sha_run::<Vec<u16>>(m, ids),
-        ShaKey::VecU32 => sha_run::<Vec<u32>>(m, ids),
+        ShaKey::U64 => sha_run::<u64>(m, ids, ghosts),
+        ShaKey::U32 => sha_run::<u32>(m, ids, ghosts),
+        ShaKey::VecU8 => sha_run::<Vec<u8>>(m, ids, ghosts),
+        ShaKey::Str => sha_run::<String>(m, ids, ghosts),
+        ShaKey::VecU16 => sha_run::<Vec<u16>>(m, ids, ghosts),
+        ShaKey::VecU32 => sha_run::<Vec<u32>>(m, ids, ghosts),
     }
 }
 
@@ -205,9 +209,22 @@ impl Scenario for SigSc {
         }
         if let Some((k, m, ids)) = &plan.sha {
             ctx.ev("sha-sketch", ids.len() as u64);
-            let s1 = sha_dispatch(*k, *m, ids);
-            let s2 = sha_dispatch(*k, *m, ids);
+            let s1 = sha_dispatch(*k, *m, ids, false);
+            let s2 = sha_dispatch(*k, *m, ids, false);
             ctx.check("C18", "sha-signature-stable", s1 == s2, || format!("two ProbMinHash3aSha runs over the same {:?} keys differ", k))?;
+            // the bytes that reach Sha for a key must be that key's bytes only: entries of weight 0 in between
+            // (accepted by this sketcher, never members) must not change which generator a key gets
+            let ids_ok: Vec<u64> = ids.iter().copied().filter(|i| *i < 0xffff_0000).collect();
+            if ids_ok.len() == ids.len() {
+                if let Ok(s3) = caught(|| sha_dispatch(*k, *m, ids, true)) {
+                    ctx.count("fault:zero-weight-ghost-entries");
+                    ctx.check("C18", "sha-seed-depends-on-key-bytes-only", s1 == s3, || {
+                        format!("{:?} keys: interleaving entries of weight 0 changed the signature of the other keys", k)
+                    })?;
+                } else {
+                    ctx.count("skipped:zero-weight-entries-rejected-by-the-variant");
+                }
+            }
             let bad = s1.iter().position(|i| !ids.contains(i));
             ctx.check("C18", "sha-signature-holds-keys-of-the-set", bad.is_none(), || format!("{:?}: signature position {:?} holds a key that was never inserted", k, bad))?;
             let rep = crate::alloc_track::peek();
